@@ -58,7 +58,7 @@ fn spec(t: Tier) -> Spec {
     Spec {
         id: "C19",
         level: "model_checking",
-        rule: format!("every history of <= {} child outcomes over {{exit 0,1,2,125,255; SIGTERM, SIGKILL, the real-time signals 34 and 64; exec failing with ENOENT, EACCES, ENOEXEC, ENOTDIR}} is injected (hook H2) into the real xargs_main run with -n1 (and -n2) over enough input; exit status and the number of invocations started must equal the reference function (0 / 123 / 124 / 125 / 126 / 127, stop at once, continue past 1..125); state = (sticky failed flag from hook H3 | terminated), transitions = outcomes; scale slice: histories of 300 and 1000 invocations, successful except for each outcome at the first, second, 150th, 256th, 257th, last-but-one and last position, combined with a second failure (exit 1 early, exit 255 last, exit 3 at #260); xargs without a command (its own echo) with standard output /dev/full or a pipe whose reader has gone: 123 or 1, never a panic or 0; own errors (bad option values, unterminated quote, argument too long) must give 1; real-children slice: histories <= 3 over {{0,1,255,SIGTERM,SIGKILL,signal 34,SIGSEGV and SIGABRT with a core dump,unlink-self,chmod-self}} with a real recorder child must give the same statuses", bounds(t)),
+        rule: format!("every history of <= {} child outcomes over {{exit 0,1,2,125,255; SIGTERM, SIGKILL, the real-time signals 34 and 64; exec failing with ENOENT, EACCES, ENOEXEC, ENOTDIR}} is injected (hook H2) into the real xargs_main run with -n1 (histories <= 3 also with -n2 and with command lines closed by the size limit: -n4 -s19, -L3 -s19, -s19, --max-chars=19 --max-args=4) over enough input; exit status and the number of invocations started must equal the reference function (0 / 123 / 124 / 125 / 126 / 127, stop at once, continue past 1..125); state = (sticky failed flag from hook H3 | terminated), transitions = outcomes; scale slice: histories of 300 and 1000 invocations, successful except for each outcome at the first, second, 150th, 256th, 257th, last-but-one and last position, combined with a second failure (exit 1 early, exit 255 last, exit 3 at #260); xargs without a command (its own echo) with standard output /dev/full or a pipe whose reader has gone: 123 or 1, never a panic or 0; own errors (bad option values, unterminated quote, argument too long) must give 1; real-children slice: histories <= 3 over {{0,1,255,SIGTERM,SIGKILL,signal 34,SIGSEGV and SIGABRT with a core dump,unlink-self,chmod-self}} with a real recorder child must give the same statuses", bounds(t)),
         bound: json!({"history_len": bounds(t), "outcomes": OUTCOMES.iter().map(|o| oname(*o)).collect::<Vec<_>>()}),
         assumptions: vec!["child statuses 126..254 are not judged".into()],
         shards: 0,
@@ -66,13 +66,30 @@ fn spec(t: Tier) -> Spec {
     }
 }
 
+/// How the command lines are formed: `per` 1 = -n1, 2 = -n2, and (two arguments per command line,
+/// closed by the size limit before the count or line limit is reached) 3 = -n4 -s19, 4 = -L3 -s19,
+/// 5 = -s19, 6 = --max-chars=19 --max-args=4.
+fn batch_opts(per: usize) -> (&'static [&'static str], usize) {
+    match per {
+        1 => (&["-n1"], 1),
+        2 => (&["-n2"], 2),
+        3 => (&["-n4", "-s19"], 2),
+        4 => (&["-L3", "-s19"], 2),
+        5 => (&["-s19"], 2),
+        _ => (&["--max-chars=19", "--max-args=4"], 2),
+    }
+}
+
 fn run_history(file: &std::path::Path, h: &[Outcome], per: usize) -> crate::xargsrun::XOut {
     // enough input for len(h)+1 invocations, so that "stops at once" is observable
-    let n = (h.len() + 1) * per;
-    let input: String = (0..n).map(|i| format!("a{i}\n")).collect();
+    let (opts, width) = batch_opts(per);
+    let n = (h.len() + 1) * width;
+    // (fixed-width arguments: "cmd x" + two 6-byte arguments = 18 bytes, a third does not fit 19)
+    let input: String = (0..n).map(|i| format!("a{i:04}\n")).collect();
     std::fs::write(file, input).unwrap();
-    let per_s = format!("-n{per}");
-    let args = ["-a", file.to_str().unwrap(), per_s.as_str(), "cmd", "x"];
+    let mut args: Vec<&str> = vec!["-a", file.to_str().unwrap()];
+    args.extend(opts.iter().copied());
+    args.extend(["cmd", "x"]);
     run_xargs(&args, &mut |k, _| if k < h.len() { h[k] } else { Outcome::Exit(0) })
 }
 
@@ -120,8 +137,8 @@ fn run(ctx: &mut Ctx) {
         if ctx.mine(idx) {
             h.clear();
             h.extend(stack.iter().map(|&i| OUTCOMES[i]));
-            for per in [1usize, 2] {
-                if per == 2 && h.len() > 3 {
+            for per in [1usize, 2, 3, 4, 5, 6] {
+                if per >= 2 && h.len() > 3 {
                     continue;
                 }
                 let got = run_history(&file, &h, per);
@@ -144,7 +161,7 @@ fn run(ctx: &mut Ctx) {
                     if again.code != got.code || again.inv.len() != got.inv.len() {
                         ctx.rep.machinery(format!("nondeterministic: {detail}"));
                     } else {
-                        ctx.rep.violation(&sig, format!("-n{per}: {detail}"), json!({"prop":"C19","per":per,"history":h.iter().map(|o| oname(*o)).collect::<Vec<_>>()}));
+                        ctx.rep.violation(&sig, format!("{}: {detail}", batch_opts(per).0.join(" ")), json!({"prop":"C19","per":per,"history":h.iter().map(|o| oname(*o)).collect::<Vec<_>>()}));
                     }
                 }
             }
@@ -224,6 +241,14 @@ fn own_errors(ctx: &mut Ctx) {
         (vec!["-s".into(), "8".into(), "cmd".into()], "aaaaaaaaaaaaaaaa\n", "argument too long for -s"),
         (vec!["-s".into(), "8".into(), "-x".into(), "-n2".into(), "cmd".into()], "aa bb\n", "argument list too long with -x"),
         (vec!["-s".into(), "3".into(), "cmd".into()], "a\n", "command line alone exceeds -s"),
+        // a line that fits once but not after substitution, under every spelling of the replace option
+        (vec!["-s".into(), "30".into(), "-I".into(), "{}".into(), "cmd".into(), "{}{}".into()], "aaaaaaaaaaaaaaaa\n", "line too long after substitution (-I {})"),
+        (vec!["-s".into(), "30".into(), "-I{}".into(), "cmd".into(), "{}{}".into()], "aaaaaaaaaaaaaaaa\n", "line too long after substitution (-I{})"),
+        (vec!["-s".into(), "30".into(), "-i".into(), "cmd".into(), "{}{}".into()], "aaaaaaaaaaaaaaaa\n", "line too long after substitution (-i)"),
+        (vec!["-s".into(), "30".into(), "-i={}".into(), "cmd".into(), "{}{}".into()], "aaaaaaaaaaaaaaaa\n", "line too long after substitution (-i={})"),
+        (vec!["-s".into(), "30".into(), "--replace".into(), "cmd".into(), "{}{}".into()], "aaaaaaaaaaaaaaaa\n", "line too long after substitution (--replace)"),
+        (vec!["--max-chars=30".into(), "--replace=R".into(), "cmd".into(), "RR".into()], "aaaaaaaaaaaaaaaa\n", "line too long after substitution (--replace=R)"),
+        (vec!["-i".into(), "-s".into(), "30".into(), "cmd".into(), "{}".into(), "{}".into()], "b\naaaaaaaaaaaaaaaa\n", "line too long after substitution into two arguments (-i), after an earlier line"),
         // the same errors after earlier command lines have been run
         (vec!["-s".into(), "30".into(), "-n1".into(), "cmd".into()], "a\nb\naaaaaaaaaaaaaaaaaaaaaaaaaaaaa\n", "argument too long for -s, after two command lines were run"),
         (vec!["-s".into(), "30".into(), "cmd".into()], "aaaaaaaaaaaaaaaaaaaa bbbbbbbbbbbbbbbbbbbb\naaaaaaaaaaaaaaaaaaaaaaaaaaaaa\n", "argument too long for -s, after the limit closed earlier command lines"),
